@@ -25,6 +25,15 @@ THEOREMS = [
     "VK.C19_lpD_symm",
     "VK.C19_lpD_zero_iff",
     "VK.C19_lpD_triangle",
+    "VK.relabel_isNode",
+    "VK.isNode_relabel",
+    "VK.adj_iff",
+    "VK.C19_rec_nodes",
+    "VK.relabel_adj",
+    "VK.build_edges_sound",
+    "VK.build_edges_complete_half",
+    "VK.C19_rec_edges",
+    "VK.C19_rec_no_loops",
 ]
 RULE = ("cases = (a) triples of profiles over a common candidate set (2-5 candidates, untied rankings, partial ballots, "
         "rational weights; the second is a permuted / condensed / rescaled / perturbed copy of the first or independent) "
@@ -33,15 +42,18 @@ RULE = ("cases = (a) triples of profiles over a common candidate set (2-5 candid
         "for n = 2..6 compared exhaustively (all nodes, all edges) with the specification; (c) node weights of random "
         "profiles loaded onto the graph; non-trivial = all; distinct = distinct inputs")
 TRUSTED = ["modelled, not verified: numpy float arithmetic in lp_dist (compared numerically); networkx containers and "
-           "nx.relabel_nodes; the recursive build_graph/_relabel construction is not re-proved - the property quantifies "
-           "over n = 2..6 and over that whole range the implementation's graph is compared exhaustively with the "
-           "specification on every run"]
+           "nx.relabel_nodes (node / edge sets: repetitions and orientation of added edges do not matter). The recursive "
+           "build_graph/_relabel construction is mirrored by Model/BallotGraphRec and PROVED equal to the specification "
+           "for every n (C19_rec_nodes, C19_rec_edges); for n = 2..6 the implementation's graph is compared exhaustively "
+           "with both the specification and the recursion model on every run"]
 ASSUMPTIONS = ["profiles share the candidate set; ballots untied; positive total weight"]
 EXPLANATION = ("Theorems: the p-norm of the difference of two finitely supported distributions is symmetric, zero iff "
                "the distributions agree, and satisfies the triangle inequality (Minkowski, Mathlib) for every p >= 1 and "
                "for the maximum; shares are invariant under rescaling all weights; the node enumeration of the "
                "specification is exactly the duplicate-free sequences over 1..n of the allowed lengths and the edge "
-               "list exactly the adjacent pairs, for every n.")
+               "list exactly the adjacent pairs, for every n; the graph the code builds recursively (n relabelled copies "
+               "of the graph on n-1, bullet votes, swaps of the first two entries) has exactly those nodes and joins "
+               "exactly those pairs, for every n (induction on n through the relabelling bijection).")
 
 N_QUICK, N_THOROUGH = 1200, 43200
 
@@ -51,6 +63,8 @@ def cases(rng, tier, shard, nshards, phase):
         for n in range(2, 7):
             if (n - 2) % nshards == shard:
                 yield {"op": "graph", "n": n}
+            if (n + 3) % nshards == shard:
+                yield {"op": "graph", "n": n, "rec": True}    # against the recursion model (Model/BallotGraphRec)
         return
     total = N_THOROUGH if tier == "thorough" else N_QUICK
     if phase.startswith("search"):
@@ -133,7 +147,8 @@ def run_case(vk, case):
             miss = [e for e in want_edges if e not in edges][:3]
             extra = [e for e in edges if e not in want_edges][:3]
             fail("graph-edges", f"n={n}: {len(edges)} edges vs {len(want_edges)}; missing {miss} extra {extra}")
-        return {"req": {"op": "ballot_graph", "n": n}, "expect": {"ok": {"nodes": nodes, "edges": edges}},
+        return {"req": {"op": "ballot_graph_rec" if case.get("rec") else "ballot_graph", "n": n},
+                "expect": {"ok": {"nodes": nodes, "edges": edges}},
                 "monitors": monitors, "tags": tags}
     if case["op"] == "weights":
         n = case["n"]
